@@ -1403,7 +1403,7 @@ def run(ctx):
                 ctx.count("route=%s" % route)
                 ctx.count("post=%s" % post)
         # 3. random tables
-        n_tables = 100 if ctx.quick() else 10000 // ctx.worker[1]
+        n_tables = 100 if ctx.quick() else 6500 // ctx.worker[1]
         cli_share = 0.15 if ctx.quick() else 0.1
         hist_share = 0.6
         for k in range(n_tables):
